@@ -29,23 +29,26 @@ def skip_splices(src, o):
             return o
 
 
-def walk(src, o, text, vp, kind):
-    """Consume `text` (normalised) from raw offset o. Returns (end offset, None) or (None, why).
-    Inside strings, character constants and comments a line splice of the source may have been
-    removed (the documented normalisation) or kept verbatim (e.g. after an escaped backslash);
-    both reproduce the input, so both are accepted (small backtracking search)."""
+def walk_ends(src, o, text, vp, kind):
+    """All raw end offsets at which `text` (normalised) can be read from raw offset o, preferred
+    first; plus a reason when there is none.  Inside strings, character constants and comments a
+    line splice of the source may have been removed (the documented normalisation) or kept
+    verbatim (e.g. after an escaped backslash): both reproduce the input, both are accepted."""
     in_tok_splices = kind in ("STRING", "CHAR_CONST", "COMMENT", "MULT_COMMENT")
     n = len(text)
     why = ["no match"]
     stack = [(o, 0)]
     seen = set()
+    ends = []
     while stack:
         o, i = stack.pop()
         if (o, i) in seen:
             continue
         seen.add((o, i))
         if i == n:
-            return o, None
+            if o not in ends:
+                ends.append(o)
+            continue
         if o >= len(src):
             why[0] = f"source exhausted at text index {i}"
             continue
@@ -74,12 +77,16 @@ def walk(src, o, text, vp, kind):
         else:
             why[0] = f"offset {o}: source has {src[o]!r}, token has {e!r}"
         # preferred option (pushed last, tried first): drop a splice, as the lexer normally does
-        # (only inside multi-character tokens, not before the first character)
         if in_tok_splices and i > 0:
             o2 = skip_splices(src, o)
             if o2 != o:
                 stack.append((o2, i))
-    return None, why[0]
+    return ends, why[0]
+
+
+def walk(src, o, text, vp, kind):
+    ends, why = walk_ends(src, o, text, vp, kind)
+    return (ends[0], None) if ends else (None, why)
 
 
 def check_stream(src, tokens, diags):
@@ -87,57 +94,73 @@ def check_stream(src, tokens, diags):
     Returns a list of (property, class, problem) found.
 
     C10 is decided without looking at positions: tokens (in order) and reported bad lexemes (in
-    order) must spell the source consecutively, with only line splices in between.  The walk
-    yields the raw start offset of every token; C09 then compares each reported (line, col)
-    with the visual position of that offset."""
-    probs = []
+    order) must spell the source consecutively, with only line splices in between (a search over
+    the few places where a splice may or may not belong to a token).  The successful reading
+    yields the raw start offset of every token; C09 then compares each reported (line, col) with
+    the visual position of that offset."""
     vp = visual_positions(src)
     sp = spellings()
     bads = [d for d in diags if d[0] == "BAD_LEXEME"]
-    bi = 0
-    cursor = 0
-    starts = []
+    texts = []
+    for k, (ty, line, col, value) in enumerate(tokens):
+        text = value if value is not None else sp.get(ty)
+        if text is None:
+            return [("C10", "no-spelling", f"token {k}: type {ty} has no spelling in the dictionaries")]
+        texts.append(text)
 
     def bad_char(d):
         t = d[1]
         pre, post = "No matchable token for '", "' lexeme"
         return t[len(pre):-len(post)] if t.startswith(pre) and t.endswith(post) else None
 
-    def take_bads(cursor, bi, text, ty):
-        """consume splices and reported bad lexemes until the token text matches"""
-        while True:
-            cursor = skip_splices(src, cursor)
-            if text is not None:
-                end, why = walk(src, cursor, text, vp, ty)
-                if end is not None:
-                    return cursor, bi, end, None
-            else:
-                why = "end of tokens"
-            if bi < len(bads) and cursor < len(src) and bad_char(bads[bi]) == src[cursor]:
-                hl = bads[bi][3][0] if bads[bi][3] else None
-                if hl is not None and (hl[0], hl[1]) != vp[cursor]:
-                    probs.append(("C09", "bad-lexeme-position", f"BAD_LEXEME for {src[cursor]!r} reported at ({hl[0]},{hl[1]}), the character is at {vp[cursor]}"))
-                cursor += 1
-                bi += 1
-                continue
-            return cursor, bi, None, why
-
+    nt, nb, ns = len(tokens), len(bads), len(src)
+    best = [(-1, 0, "no reading")]       # furthest failure: (token index, cursor, why)
+    seen = set()
+    # state: (k, cursor, bi, starts tuple, badpos tuple) explored depth-first, preferred choices first
+    stack = [(0, 0, 0, (), ())]
+    solution = None
+    while stack:
+        k, cur, bi, starts, badpos = stack.pop()
+        if (k, cur, bi) in seen:
+            continue
+        seen.add((k, cur, bi))
+        if k == nt and bi == nb and cur == ns:
+            solution = (starts, badpos)
+            break
+        nxt = []
+        # a reported bad lexeme
+        if bi < nb and cur < ns and bad_char(bads[bi]) == src[cur]:
+            nxt.append((k, cur + 1, bi + 1, starts, badpos + (cur,)))
+        # an inter-token splice
+        c2 = skip_splices(src, cur)
+        if c2 != cur:
+            nxt.append((k, c2, bi, starts, badpos))
+        # the next token
+        if k < nt:
+            ends, why = walk_ends(src, cur, texts[k], vp, tokens[k][0])
+            if not ends and (k, cur) > (best[0][0], best[0][1]):
+                best[0] = (k, cur, why)
+            for e in reversed(ends):
+                nxt.append((k + 1, e, bi, starts + (cur,), badpos))
+        elif (k, cur) > (best[0][0], best[0][1]):
+            best[0] = (k, cur, "end of tokens")
+        for st in nxt:
+            stack.append(st)
+    if solution is None:
+        k, cur, why = best[0]
+        if k < nt and k >= 0:
+            ty = tokens[k][0]
+            return [("C10", "content-differs", f"token {k} {ty} {texts[k]!r} does not spell the source at offset {cur} ({src[cur:cur+12]!r}...): {why}")]
+        if cur < ns:
+            return [("C10", "characters-dropped", f"characters {src[cur:cur+20]!r} at offset {cur} are in no token and not reported as bad lexemes")]
+        return [("C10", "phantom-bad-lexeme", "BAD_LEXEME diagnostics do not correspond to characters of the source")]
+    probs = []
+    starts, badpos = solution
     for k, (ty, line, col, value) in enumerate(tokens):
-        text = value if value is not None else sp.get(ty)
-        if text is None:
-            probs.append(("C10", "no-spelling", f"token {k}: type {ty} has no spelling in the dictionaries"))
-            return probs
-        start, bi, end, why = take_bads(cursor, bi, text, ty)
-        if end is None:
-            probs.append(("C10", "content-differs", f"token {k} {ty} {text!r} does not spell the source at offset {start} ({src[start:start+12]!r}...): {why}"))
-            return probs
-        starts.append(start)
-        if (line, col) != vp[start]:
-            probs.append(("C09", "position", f"token {k} {ty} reported at ({line},{col}); its first character (offset {start}) is at {vp[start]}"))
-        cursor = end
-    cursor, bi, _, _ = take_bads(cursor, bi, None, None)
-    if cursor != len(src):
-        probs.append(("C10", "characters-dropped", f"characters {src[cursor:cursor+20]!r} at offset {cursor} are in no token and not reported as bad lexemes"))
-    if bi != len(bads):
-        probs.append(("C10", "phantom-bad-lexeme", f"{len(bads) - bi} BAD_LEXEME diagnostics do not correspond to a character of the source"))
+        if (line, col) != vp[starts[k]]:
+            probs.append(("C09", "position", f"token {k} {ty} reported at ({line},{col}); its first character (offset {starts[k]}) is at {vp[starts[k]]}"))
+    for d, o in zip(bads, badpos):
+        hl = d[3][0] if d[3] else None
+        if hl is not None and (hl[0], hl[1]) != vp[o]:
+            probs.append(("C09", "bad-lexeme-position", f"BAD_LEXEME for {src[o]!r} reported at ({hl[0]},{hl[1]}), the character is at {vp[o]}"))
     return probs
